@@ -63,6 +63,33 @@ theorem C15_isolation {st : Region} {abs : Nat → Option ByteArray} (inv : Inv 
   simp only [hk', e1, e2, eo]
   exact ⟨rd.1, trivial, rd.2⟩
 
+/-- `C15_reads_do_not_interfere`: `ReadSector` (modelled as a method that returns its result AND the receiver's state
+    afterwards, `readSectorS`) leaves the Region unchanged whatever it returns — data, `ErrNoSector`, `ErrNoData`,
+    EOF on a half-written chunk, or a panic on bad coordinates.  Hence any sequence of reads on one Region returns, for
+    each coordinate, what a single read of the initial state returns: the order of reads cannot matter. -/
+theorem C15_reads_do_not_interfere (st : Region) (x z : Int) (rs : List (Int × Int)) :
+    (readSectorS st x z).2 = st ∧ (existSectorS st x z).2 = st ∧
+      runReads st rs = (rs.map fun p => readSector st p.1 p.2, st) :=
+  ⟨rfl, rfl, runReads_eq st rs⟩
+
+/-- `C15_isolation_any_order`: the isolation theorem for every order of reads on the re-opened Region — in particular
+    after the half-written chunk itself has been read (with any outcome) first: the i-th read of any sequence, if it
+    addresses a chunk other than the one being written, returns that chunk's last written bytes (or absence). -/
+theorem C15_isolation_any_order {st : Region} {abs : Nat → Option ByteArray} (inv : Inv st abs)
+    {x z : Int} {k : Nat} (hk : idx? x z = some k) (data : ByteArray) (now : BitVec 32) (j c : Nat) :
+    ∃ st', load (crashImage st.file (writeSector st x z data now).2.2 j c) = .ok st' ∧
+      ∀ (rs : List (Int × Int)), (runReads st' rs).2 = st' ∧
+        ∀ (i : Nat) (hi : i < rs.length) (k' : Nat), idx? rs[i].1 rs[i].2 = some k' → k' ≠ k →
+          (runReads st' rs).1[i]? = some (match abs k' with
+            | none => .err
+            | some d => if d.size = 0 then .err else .ok d) := by
+  obtain ⟨st', h1, h2⟩ := C15_isolation inv hk data now j c
+  refine ⟨st', h1, fun rs => ?_⟩
+  rw [runReads_eq]
+  refine ⟨rfl, fun i hi k' hk' hne => ?_⟩
+  simp only [List.getElem?_map, List.getElem?_eq_getElem hi, Option.map_some]
+  rw [(h2 _ _ k' hk' hne).2.2]
+
 /-- `C15_history`: crash isolation for every reachable state: after any history from `CreateWriter`, a crash at any point of the next `WriteSector`
     leaves a file that `Load` accepts and in which every other chunk still reads back the bytes the history last
     wrote to it, absent chunks (and out-of-limit, refused writes) still absent. -/
